@@ -27,7 +27,10 @@ ARRAY_LITERAL = 0  # F12: the empty form of array is the literal text "array({_o
 
 MEASURE_NO_EXPAND_ALL = 0  # F26: Pretty.__rich_measure__ calls pretty_repr without expand_all (1 = rich 9.10.0 as found; 0: fix db5535b)
 
+MEASURE_IGNORES_MARGIN = 0  # round-4 finding, fixed in f3605d0: Pretty.__rich_measure__ never looked at self.margin although __rich_console__ renders at max_width - margin (1 = rich as found; 0 = repaired, what /repo has now)
+
 ARRAY_LITERAL_TEXT = "array({_object.typecode!r})"
+MARGINS = [1, 1, 2, 3, 5, 12]
 INDENTS = [4, 4, 1, 2, 0, 8]
 MAX_LENGTHS = [None, None, None, 0, 1, 2, 3, 5]
 MAX_STRINGS = [None, None, None, 0, 1, 3, 10]
@@ -280,6 +283,10 @@ def eval_value(rec, v, tier_quick, n_cfg, tag, sweep=False):
                     f"measured {m} at available width {W}, but rendering at width {m} has a line of {widest} cells: {text!r}",
                     finding=finding,
                 )
+        # ---- Pretty(margin > 0).__rich_measure__: correspondence (prettyMeasureM) + soundness against what
+        #      __rich_console__ renders when given exactly the measured width (pretty_measure_sound_margin)
+        if ci < 2 or rng.random() < 0.3:
+            measure_margin_case(rec, v, heap, root, table, rng, widths, maxw, ind, ml, ms, ea, in_domain, brk, cell_len)
     # ---- Pretty.__rich_console__ option plumbing (model: prettyConsole)
     console_case(rec, v, heaps, rng, maxw)
     # ---- traverse: correspondence on the heap + abbreviation counts on the real tree
@@ -322,6 +329,57 @@ def eval_value(rec, v, tier_quick, n_cfg, tag, sweep=False):
         L.ref_lines(trees[(ml, ms)], cell_len, 0, ind, True, crit)
         for w in choose_widths(rng, crit, maxw, 1):
             rec.case("pretty.render", [DROP_SUFFIX, L.enc_node(node), w, ind, enc_bool(ea)], enc_str(pretty_repr(node, max_width=w, indent_size=ind, expand_all=ea)), shape="from-traverse")
+
+
+def measure_margin_case(rec, v, heap, root, table, rng, widths, maxw, ind, ml, ms, ea, in_domain, brk, cell_len):
+    import dataclasses
+
+    from rich.pretty import Pretty, pretty_repr
+
+    margin = rng.choice(MARGINS)
+    W = rng.choice(widths) if rng.random() < 0.7 else rng.randint(1, maxw)
+    p = Pretty(v, indent_size=ind, max_length=ml, max_string=ms, expand_all=ea, margin=margin)
+    inp = dict(value=_short(v), max_width=W, indent_size=ind, expand_all=ea, max_length=ml, max_string=ms, margin=margin)
+    meas = None
+    try:
+        meas = p.__rich_measure__(_console(), W)
+        mans = str(meas.maximum)
+        rec.check(meas.minimum == meas.maximum, "Pretty.__rich_measure__:margin:minmax", inp, f"{meas}")
+    except ValueError:
+        mans = "err:ValueError"
+    except RecursionError:
+        return
+    except BaseException as e:  # noqa: BLE001
+        mans = "err:Other:" + type(e).__name__
+    rec.case(
+        "pretty.measure_m",
+        [DROP_SUFFIX, ARRAY_LITERAL, MEASURE_NO_EXPAND_ALL, MEASURE_IGNORES_MARGIN, heap, root, enc_opt(ml), enc_opt(ms), table, W, ind, enc_bool(ea), margin],
+        mans,
+        shape=("err" if meas is None else "ok") + (":ea" if ea else ""),
+    )
+    if meas is None or not in_domain or brk:
+        return
+    m = meas.maximum
+    opts = dataclasses.replace(_console().options, max_width=m, min_width=m)
+    try:
+        text = list(p.__rich_console__(_console(), opts))[-1].plain
+    except RecursionError:
+        return
+    widest = max(cell_len(l) for l in text.split("\n"))
+    finding = None
+    if widest > m:
+        # narrow classifier: the same value without a margin renders within m at width m (the measurement is sound
+        # for margin = 0), and the overflow appears only because __rich_console__ renders at m - margin
+        flat = pretty_repr(v, max_width=m, indent_size=ind, max_length=ml, max_string=ms, expand_all=ea)
+        if max(cell_len(l) for l in flat.split("\n")) <= m:
+            finding = "pretty-measure-ignores-margin"
+    rec.check(
+        widest <= m,
+        "Pretty.__rich_measure__:margin:sound",
+        inp,
+        f"Pretty(margin={margin}) measured {m} at available width {W}, but __rich_console__ given width {m} renders a line of {widest} cells: {text!r}",
+        finding=finding,
+    )
 
 
 JUSTIFY = [None, None, "left", "center", "right", "full", ""]
@@ -399,6 +457,65 @@ def console_case(rec, v, heaps, rng, maxw):
     want = pretty_repr(v, max_width=cwid - margin, indent_size=ind, max_length=ml, max_string=ms, expand_all=ea)
     want = "".join(ch for ch in want if ord(ch) not in (8, 11, 12, 13))  # Text.__init__ strips these
     rec.check(text.plain == want, "Pretty.__rich_console__", inp, "Pretty does not pass its options to pretty_repr")
+    console_full_case(rec, v, heap, root, table, rng, want, inp, ind, pj, po, pnw, guides, ea, margin, insert_line, ml, ms, cwid, cj, co, cnw, enc, opts)
+
+
+def guide_oracle(line, ind):
+    """statement-level oracle for one non-blank line under indent guides (ind > 0): same length, same characters after
+    the indentation, and inside the n leading blanks a guide at every whole multiple of ind below (n // ind) * ind."""
+    n = len(line) - len(line.lstrip(" "))
+    full = (n // ind) * ind
+    return "".join("│" if (j < full and j % ind == 0) else " " for j in range(n)) + line[n:]
+
+
+def console_full_case(rec, v, heap, root, table, rng, want, inp, ind, pj, po, pnw, guides, ea, margin, insert_line, ml, ms, cwid, cj, co, cnw, enc, opts):
+    """everything Pretty.__rich_console__ yields with the REAL Text.with_indent_guides and the real default
+    ReprHighlighter (model: prettyConsoleFull; theorems console_chars_exact / console_guides_chars)."""
+    from rich.pretty import Pretty
+    from rich.text import Text
+
+    p = Pretty(v, indent_size=ind, justify=pj, overflow=po, no_wrap=pnw, indent_guides=guides, max_length=ml, max_string=ms, expand_all=ea, margin=margin, insert_line=insert_line)
+    ascii_only = not enc.startswith("utf")
+    applied = guides and not ascii_only
+    try:
+        parts = list(p.__rich_console__(_console(), opts))
+        err = None
+    except RecursionError:
+        return
+    except BaseException as e:  # noqa: BLE001 - judged below
+        parts = None
+        err = type(e).__name__
+    if err is not None:
+        ans = "err:" + (err if err in ("ZeroDivisionError", "ValueError") else "Other:" + err)
+        # the only documented-by-the-code error: divmod(len(indent), 0) when guides are applied with indent_size == 0
+        rec.check(err == "ZeroDivisionError" and applied and ind == 0 and want.strip(" \n") != "", "Pretty.__rich_console__:full:error", inp, f"raised {err}")
+    else:
+        okshape = len(parts) in (1, 2) and isinstance(parts[-1], Text) and (len(parts) == 1 or parts[0] == "")
+        rec.check(okshape, "Pretty.__rich_console__:full:shape", inp, f"yielded {parts!r}")
+        if not okshape:
+            return
+        text = parts[-1]
+        plain = text.plain
+        ans = ";".join([str(len(parts))] + ([enc_str("")] if len(parts) == 2 else []) + [enc_str(plain), _enc_opt_str(text.justify), _enc_opt_str(text.overflow), enc_bool(bool(text.no_wrap))])
+        # direct 1: the blank renderable comes exactly when insert_line and the text yielded has a line break
+        rec.check((len(parts) == 2) == (bool(insert_line) and "\n" in plain), "Pretty.__rich_console__:full:insert_line", inp, f"{len(parts)} parts for insert_line={insert_line}, text {plain!r}")
+        if not applied:
+            # direct 2 (console_chars_exact): the characters are those of pretty_repr at width - margin; the highlighter added none
+            rec.check(plain == want, "Pretty.__rich_console__:full:chars", inp, f"yielded {plain!r}, pretty_repr gives {want!r}")
+        elif ind > 0 and "\t" not in want:
+            wl = want.split("\n")
+            if all(l.strip(" ") != "" for l in wl):
+                # direct 3 (console_guides_chars): only blanks of the indentation became guides, at whole multiples
+                exp = "\n".join(guide_oracle(l, ind) for l in wl)
+                rec.check(plain == exp, "Pretty.__rich_console__:full:guides", inp, f"yielded {plain!r}, expected {exp!r}")
+            else:
+                rec.note("console_full:blank-line-under-guides")
+    rec.case(
+        "pretty.console_full",
+        [DROP_SUFFIX, ARRAY_LITERAL, heap, root, enc_opt(ml), enc_opt(ms), table, ind, _enc_opt_str(pj), _enc_opt_str(po), _enc_opt_bool(pnw), enc_bool(guides), enc_bool(ea), margin, enc_bool(insert_line), cwid, _enc_opt_str(cj), _enc_opt_str(co), _enc_opt_bool(cnw), enc_bool(ascii_only)],
+        ans,
+        shape=("err" if err else ("guides" if applied else "plain") + (":blank" if len(parts) == 2 else "")),
+    )
 
 
 def _depth(t):
@@ -725,6 +842,25 @@ def replay(ctx, case):
     print("input:", case.get("input"))
     print("what:", case.get("what"))
     inp = case.get("input")
+    if isinstance(inp, dict) and "margin" in inp and "max_width" in inp and "value" in inp:
+        # Pretty(margin=).__rich_measure__ against what __rich_console__ renders at the measured width
+        import dataclasses
+
+        import lib_pretty as L
+        from rich.pretty import Pretty
+
+        try:
+            v = eval(inp["value"], dict(L.EVAL_NS))  # noqa: S307 - the recorded repr of the value
+        except Exception as e:  # noqa: BLE001
+            print("value cannot be rebuilt from its repr:", e)
+            return False
+        p = Pretty(v, indent_size=inp["indent_size"], max_length=inp["max_length"], max_string=inp["max_string"], expand_all=inp["expand_all"], margin=inp["margin"])
+        m = p.__rich_measure__(_console(), inp["max_width"]).maximum
+        opts = dataclasses.replace(_console().options, max_width=m, min_width=m)
+        text = list(p.__rich_console__(_console(), opts))[-1].plain
+        widest = max(L.table_cell_len(l) for l in text.split("\n"))
+        print(f"measured {m}; rendered at {m}: widest line {widest} cells: {text!r}")
+        return widest <= m
     if isinstance(inp, dict) and "max_width" in inp and "value" in inp:
         import lib_pretty as L
         from rich.pretty import pretty_repr
@@ -773,7 +909,22 @@ MANIFEST = {
     "in-domain case the real output is eval()-ed and compared for deep typed equality, compared with a statement-level "
     "reference printer up to the legal trailing comma, with repr() when it fits, for indentation regularity and for "
     "measure soundness on the real Pretty, at the widths where a fit decision flips (+-1; +-2 sweep for strings built from "
-    "the first/last/interior/outside code points of every CELL_WIDTHS row).",
+    "the first/last/interior/outside code points of every CELL_WIDTHS row). Deepening round 4 (Model/PrettyConsole.lean, "
+    "Lemmas/PrettyConsole.lean): everything Pretty.__rich_console__ yields is modelled as characters (prettyConsoleFull: "
+    "pretty_repr at options.max_width - margin, Text.__init__'s control-code strip, Text.with_indent_guides itself — "
+    "Text.split, the blank-line counter, divmod with ZeroDivisionError at indent_size 0 and Python semantics for a negative "
+    "size, the join into a NEW Text that loses justify/overflow/no_wrap — and the inserted empty renderable decided on the "
+    "guided text); theorems console_chars_exact / console_is_pretty_repr (without guides the characters yielded are exactly "
+    "those of pretty_repr at max_width - margin, plus the optional empty renderable; all trees, widths, options), "
+    "console_guides_chars (with guides, indent_size > 0, no blank line: same lines, same length, same characters after the "
+    "indentation, the indentation's blanks replaced by one guide at every whole multiple of indent_size), "
+    "console_guides_zero_raises; pretty_measure_sound_pieces (the measurement theorem for leaf reprs that contain line "
+    "boundaries: pieces of str.splitlines; only container lines KEPT at the measured width must be free of boundaries, "
+    "machine-checked witness kept_line_break_needed that this cannot be dropped); pretty_measure_sound_margin for the "
+    "repaired measurement with margin >= 0, witness old_pretty_measure_margin_unsound for the code as it is. New "
+    "correspondence functions pretty.console_full (~14.8k quick, real ReprHighlighter, real with_indent_guides; 3 direct "
+    "evaluations with a statement-level guide oracle) and pretty.measure_m (~29k quick, margins 1..12, direct soundness "
+    "against __rich_console__ at the measured width).",
     "note": "PARTIAL by nature: 'evaluates back' rests on Python's eval() and repr() of leaves, which are runtime and enter the "
     "model as opaque token strings (str/bytes: characters are modelled, repr of the printed prefix is supplied per case); this "
     "part is validated per generated case, not proved. Scope of the eval round trip: built-in containers and literal leaves; "
@@ -785,8 +936,15 @@ MANIFEST = {
     "CELL_WIDTHS table (C13); strings with lone surrogates answer `unmodelled`. pretty_measure_sound assumes blanks are one "
     "cell wide, margin = 0 and no leaf repr containing a line boundary; a leaf with empty repr makes __rich_measure__ raise "
     "ValueError (modelled, stated). Not modelled: install(), highlighting, Text.with_indent_guides itself (only that it is "
-    "requested with indent_size and style repr.indent), Text wrapping/cropping; Pretty.__rich_console__ is compared, no "
-    "theorem is stated about it. Variant flags (1 = rich 9.10.0 as found): DROP_SUFFIX = 0 (F24, fix 376cec1), "
+    "requested with indent_size and style repr.indent) in the older pretty.console comparison — since round 4 "
+    "pretty.console_full models its characters, except Text.expand_tabs (a tab under guides answers `unmodelled`) and the "
+    "spans; Text wrapping/cropping is not modelled. Round-4 finding, FIXED in f3605d0 (MEASURE_IGNORES_MARGIN = 0): "
+    "Pretty.__rich_measure__ never looked at self.margin although __rich_console__ renders at max_width - margin "
+    "(Panel.fit(Pretty([['aaaa']], margin=1)) cropped the value); pretty_measure_sound_margin is the theorem for the repaired code, "
+    "old_pretty_measure_margin_unsound the witness against the code as found. "
+    "pretty_measure_sound_pieces still assumes one-cell blanks and no line boundary in a container line kept at the "
+    "measured width (false without it: kept_line_break_needed; only custom multi-line __repr__ objects get there, "
+    "outside the statement's values). Variant flags (1 = rich 9.10.0 as found): DROP_SUFFIX = 0 (F24, fix 376cec1), "
     "ARRAY_LITERAL = 0 (F12, fix e5d1b9a), MEASURE_NO_EXPAND_ALL = 0 (F26, fix db5535b): all three defects are fixed in "
     "/repo, so the check has no known finding and prints no KNOWN-FINDING line; the classifiers pretty-expand-drops-suffix, "
     "pretty-empty-array-literal and pretty-measure-ignores-expand-all only label a failure should one of them reappear.",
